@@ -225,7 +225,7 @@ class Model:
         seen.add(n)
         t = self.p.targets[n]
         o = t.get('opt')
-        if o and self.is_target(o) and self.R[o].failed:
+        if o and self.is_target(o) and (self.R[o].failed or self.tainted(o, seen)):
             return True
         return any(self.tainted(d, seen) for d in self.p.curdeps(n))
 
@@ -283,6 +283,24 @@ class Model:
                 return ctx['done'][n]
             del ctx['done'][n]
         s, why = self.status(n, ctx, {}, forced)
+        if s == 'dirty' and not forced and ctx.get('parallel') and ctx['obs'] is not None and n not in ctx['obs'] and (why or '').startswith('dep-dirty:'):
+            # parallel command: n is dirty only because a target below it has lost its rule (its recorded .do file is gone).  Whoever
+            # looks at that target first turns the file into a source, unchanged; a sibling may have done so before n was judged,
+            # and then n is clean.  n did not run: take that order.
+            conv = [d for d in self.closure_of(n) if d != n and self.p.who(d) is None and self.R[d].built and self.R[d].exists
+                    and not self.R[d].phony and not self.R[d].failed and d not in ctx['done']]
+            if conv:
+                m2 = self.copy()
+                c2 = m2.new_ctx(keep=ctx['keep'])
+                c2['done'] = dict(ctx['done'])
+                for d in conv:
+                    m2.no_rule(d, c2, 'do-changed')
+                s2, _w2 = m2.status(n, c2, {})
+                if s2 == 'clean':
+                    ctx['maybe'].add(n)
+                    for d in conv:
+                        self.no_rule(d, ctx, 'do-changed')
+                    s, why = self.status(n, ctx, {}, forced)
         if s != 'dirty' and ctx['obs'] is not None and self.obs_left(ctx, n):
             trig = self.extra_trigger(n, ctx)
             if trig and not self.settles_to_run(n, ctx):
@@ -343,8 +361,8 @@ class Model:
                 continue
             if self.R[d].failed and ctx['done'].get(d) is False:
                 return True
-            if ctx['done'].get(d) is True and d not in ctx['ran']:
-                continue        # merely checked in this run: redo does not look below it again
+            if ctx['done'].get(d) is True and (d not in ctx['ran'] or self.R[d].stamped):
+                continue        # merely checked in this run (or marked by redo-stamp): redo does not look below it again
             if d not in seen:
                 seen.add(d)
                 if self.failed_below(d, ctx, seen):
@@ -538,9 +556,10 @@ class Model:
             r.failed = True
             # Targets that were *executed* earlier in this run and have n below them are not up to date any more (a forced rebuild
             # of n that fails after its dependents were built): redo re-examines executed targets when they are requested again
-            # (only targets it merely checked carry the "checked in this run" mark) and finds the failed dependency.
+            # (only targets it merely checked - and checksummed ones, which redo-stamp marks - carry the "checked in this run"
+            # mark) and finds the failed dependency.
             ctx['done'][n] = False
-            for dn in [x for x, okd in ctx['done'].items() if okd and x in ctx['ran'] and x != n]:
+            for dn in [x for x, okd in ctx['done'].items() if okd and x in ctx['ran'] and x != n and not self.R[x].stamped]:
                 if self.failed_below(dn, ctx, set()):
                     del ctx['done'][dn]
             return False
